@@ -418,6 +418,10 @@ namespace occa {
     }
 
     int typelessFindIndex(const baseFunction &fn) const {
+      if (usingNativeCpuMode()) {
+        return typelessCpuFindIndex(fn);
+      }
+
       int returnValue = -1;
 
       setupReturnMemory(returnValue);
@@ -433,6 +437,53 @@ namespace occa {
       ));
 
       setReturnValue(returnValue);
+
+      return returnValue;
+    }
+
+    int typelessCpuFindIndex(const baseFunction &fn) const {
+      // Each block finds its first match and the first block
+      // with a match gives the first match of the whole array
+      const int blockCount = 128;
+
+      setupReturnMemoryArray<int>(blockCount);
+
+      occa::scope scope = getMapArrayScope(fn);
+      scope.props["defines/OCCA_ARRAY_FIND_BLOCK_COUNT"] = blockCount;
+
+      OCCA_JIT(scope, (
+        for (int blockIndex = 0; blockIndex < OCCA_ARRAY_FIND_BLOCK_COUNT; ++blockIndex; @outer) {
+          for (int dummyIndex = 0; dummyIndex < 1; ++dummyIndex; @inner) {
+            const int blockSize = (
+              (occa_array_length + OCCA_ARRAY_FIND_BLOCK_COUNT - 1) / OCCA_ARRAY_FIND_BLOCK_COUNT
+            );
+
+            const int startIndex = blockIndex * blockSize;
+            const int unsafeEndIndex = startIndex + blockSize;
+            const int endIndex = occa_array_length < unsafeEndIndex ? occa_array_length : unsafeEndIndex;
+
+            int foundIndex = -1;
+
+            for (int i = startIndex; i < endIndex; ++i) {
+              if ((foundIndex < 0) && OCCA_ARRAY_FUNCTION_CALL(i)) {
+                foundIndex = i;
+              }
+            }
+
+            occa_array_return[blockIndex] = foundIndex;
+          }
+        }
+      ));
+
+      int *blockIndices = new int[blockCount];
+      returnMemory.copyTo(blockIndices, blockCount);
+
+      int returnValue = -1;
+      for (int i = 0; (i < blockCount) && (returnValue < 0); ++i) {
+        returnValue = blockIndices[i];
+      }
+
+      delete [] blockIndices;
 
       return returnValue;
     }
